@@ -373,6 +373,8 @@ pub fn run(ctx: &mut Ctx) -> Result<(), Violation> {
                 random stages draw operands of up to 5 variables with ids from 0..9. Non-trivial = binary case with both operands \
                 non-constant and different supports, ite with three non-constant operands, not over >= 2 variables; distinct by the serialized case. Operand provenance: created in the environment through mk_choice (default), or - in a share of the random cases and in dedicated stages - plain values that belong to no environment / nodes of another environment (what BDD::<usize>::from(named) and the repository's own parser tests produce)."
         .to_string();
+    ctx.rule.push_str(" Wide stage: ");
+    ctx.rule.push_str(crate::wide::RULE);
     ctx.assume("operands are created in the environment through mk_choice/mk_const (plain::intern), never by the operation under test");
     ctx.assume("oracle: pointwise bit operations on 2^k-bit truth tables (harness code)");
 
@@ -527,10 +529,15 @@ pub fn run(ctx: &mut Ctx) -> Result<(), Violation> {
         crate::fun::with_operands(mode, || check_case(&c))
     });
     ctx.stage("random-operands", false, r)?;
+    let wc = ctx.tier.cases(6_000, 200_000);
+    crate::wide::stage_conn(ctx, "wide-operands", false, wc)?;
     Ok(())
 }
 
 pub fn replay(case: &Value) -> Check {
+    if let Some(r) = crate::wide::replay(case) {
+        return r;
+    }
     match Case::from_json(case) {
         Some(c) => crate::fun::with_operands(crate::fun::case_operands(case), || check_case(&c)),
         None => Err(Violation::new("unreadable replay case", case.clone())),
